@@ -11,7 +11,7 @@ import random
 from . import probes
 
 
-def gen_case(rng, max_funcs=6, p_bound=0.15, p_default=0.3, p_rename=0.3, p_nullary=0.12, p_tuple=0.25, p_decl=0.75, p_ign=0.08, p_falsy=0.0):
+def gen_case(rng, max_funcs=6, p_bound=0.15, p_default=0.3, p_rename=0.3, p_nullary=0.12, p_tuple=0.25, p_decl=0.75, p_ign=0.08, p_falsy=0.0, p_picker=0.0):
     roots = [f"r{i}" for i in range(rng.randint(1, 3))]
     names = list(roots)
     defaults = {r: f"D{r}" for r in roots if rng.random() < p_default}
@@ -36,6 +36,8 @@ def gen_case(rng, max_funcs=6, p_bound=0.15, p_default=0.3, p_rename=0.3, p_null
         fd = {"name": f"f{i}", "params": params, "iparams": iparams, "outs": outs, "defaults": fdef, "bound": bound}
         if p_falsy and rng.random() < p_falsy:
             fd["ret"] = rng.choice(sorted(probes.FALSY))
+        if p_picker and nout > 1 and rng.random() < p_picker:
+            fd["picker"] = True  # returns {output name: value}, PipeFunc(output_picker=probes.pick_member)
         funcs.append(fd)
         names.extend(outs)
     # a pipeline-level default exists only if some function actually declares it
@@ -63,7 +65,8 @@ def build_funcs(case, log=None, fault=None, tag=None, cache=None, prefix="", ext
         if explicit_defaults:
             xdef, idef = {p: f["defaults"][p] for p in f["params"] if p in f["defaults"] and p not in f["bound"]}, {}
         fn = probes.make_probe(prefix + f["name"], f["iparams"], len(f["outs"]), log=log, defaults=idef, tag=tag,
-                               fault=(fault or {}).get(f["name"]) if fault else None, ret=f.get("ret"))
+                               fault=(fault or {}).get(f["name"]) if fault else None, ret=f.get("ret"),
+                               as_dict=(f["outs"] if f.get("picker") else None))
         renames = {ip: p for p, ip in zip(f["params"], f["iparams"]) if ip != p}
         kw = {}
         if renames:
@@ -74,6 +77,8 @@ def build_funcs(case, log=None, fault=None, tag=None, cache=None, prefix="", ext
             kw["defaults"] = xdef
         if cache and f["name"] in cache:
             kw["cache"] = True
+        if f.get("picker"):
+            kw["output_picker"] = probes.pick_member
         if extra and f["name"] in extra:
             kw.update(extra[f["name"]])
         outn = tuple(f["outs"]) if len(f["outs"]) > 1 else f["outs"][0]
